@@ -1113,7 +1113,7 @@ def calc_pipeline(v, pid, tier, alphabet, max_steps, families, acts, what, n_per
     traces = []
     if mc_diff:
         cfg = work(pid, "mcdiff.cfg")
-        write_cfg(cfg, {"MaxUn": 1 if q else 2, "Stats": not q, "SecondOrder": not q}, invariants=["RulesOk"])
+        write_cfg(cfg, {"MaxUn": 1 if q else 2, "Stats": not q, "SecondOrder": not q}, invariants=["RulesOk", "ModesAgreeOnRuledOperators"])
         res = vlib.run_tlc("MC_Diff", cfg, f"{pid}-mcdiff", workers=16, timeout=3000, heap="6g")
         if not res.ok:
             print(res.out[-3000:])
@@ -1181,6 +1181,10 @@ def calc_pipeline(v, pid, tier, alphabet, max_steps, families, acts, what, n_per
             r0 = recs.get(case, {})
             seeds = [vlib.uncps(x.get("text_in", [])) for x in r0.get("seeds", [])]
             hist = [{kk: vv for kk, vv in st.items() if kk != "res"} for st in r0.get("steps", [])[:k]]
+            if act == "partial_relaxed" and verdict == "bad:value":
+                # what MissingOpMode::PerOperand / None compute is documented API behaviour beyond the listed properties
+                v.drift.append(f"partial_relaxed: seeds {seeds} step {k} {hist[-1] if hist else ''}: result differs from PartialImpl.DM")
+                continue
             if verdict == "bad:vars-unused-variable-lost":
                 # known finding F8 (open): identified by its call sites - variable lists rebuilt from occurring nodes
                 if act in ("reparse", "serde", "subs") and vlib.finding_open("F8"):
@@ -1272,8 +1276,11 @@ def c12(a):
 def c09(a):
     v = Verdict("C09", a.tier, "model_checking")
     q = a.tier == "quick"
-    calc_pipeline(v, "C09", a.tier, ["diff", "conv"], 1 if q else 2, ["poly", "typed"], {"partial", "partial_nth", "partial_iter"},
+    calc_pipeline(v, "C09", a.tier, ["diff", "conv"], 1 if q else 2, ["poly", "typed", "relaxed"], {"partial", "partial_nth", "partial_iter", "partial_relaxed"},
                   "differentiation bookkeeping", 240 if q else 4000, mc_diff=True)
+    v.notes.append("family `relaxed`: partial_relaxed with every MissingOpMode on expressions with max / min / atan2 (PartialImpl.DM): index errors, "
+                   "kept variable lists and refusal in mode Error are judged for this property; the value of the per-operand / keep-operands "
+                   "results lies beyond the listed properties and a difference there is reported as MODEL-DRIFT")
     v.notes.append("index >= number of variables must be an error with no partial_deepex hook event before it; the derivative keeps the "
                    "variable list; partial_nth / partial_iter are compared with the iterated rule transcription D (so n-fold = repeated, "
                    "iterated = sequential, order zero = identity, and mixed partials agree because D commutes as series)")
